@@ -189,7 +189,10 @@ def run_driver(cmds: Iterable[dict], chunk: int = 20000) -> list[Any]:
         p = subprocess.run([DRIVER], input=data.encode("utf-8"), capture_output=True, timeout=1800)
         if p.returncode != 0:
             raise DriverError(f"driver exit {p.returncode}: {p.stderr.decode()[:2000]}")
-        lines = p.stdout.decode("utf-8").splitlines()
+        # split on "\n" only: str.splitlines() also breaks on U+0085/U+2028/U+2029…, which the driver prints raw inside strings
+        lines = p.stdout.decode("utf-8").split("\n")
+        if lines and lines[-1] == "":
+            lines.pop()
         if len(lines) != len(buf):
             raise DriverError(f"driver answered {len(lines)} lines for {len(buf)} commands")
         for ln in lines:
